@@ -713,7 +713,7 @@ class C05(Prop):
         byname = {"dim": ["sum_name", "is_monotonic"], "arr": ["transpose_names", "labels", "flatten"]}
         for rank in (2, 3, 3):
             for q in ("swapaxes_name", "sum_name"):
-                for via in ("dims_swap", "dims_swap_dict"):
+                for via in ("dims_swap", "dims_swap_dict", "dims_dup_partial", "dims_dup_dict"):
                     yield {"op": "hist", "array": base(rank, rng.choice(["inc", "shuf"])), "forms": [], "probes": byname, "theme": "gridC",
                            "steps": [["query", 0, q, rng.randrange(rank)], ["rename", 0, rng.randrange(rank), via]]}
         derivs = [["slice", 0, 0, 0, 3], ["slice", 0, 0, 1, 4], ["take", 0, 0, [0, 1, 2]], ["take", 0, 0, [2, 0, 1]], ["index", 0, 1, 0, "pos"],
